@@ -102,6 +102,11 @@ func vhRestartRun(tag string, kinds []int) *vhSM {
 	}
 	e.crashOnSave, e.crashed = false, false
 	e.viewsLeft = 1
+	if verifrt.Thorough() && tag == "precommit" {
+		// the mirror kept collecting votes while the process was down: the view the
+		// restarted state machine is given carries arbitrary vote numbers
+		e.symEntrances = verifrt.Choose("restart-view-has-votes", 2)
+	}
 	if !e.restart() {
 		return nil
 	}
